@@ -106,9 +106,10 @@ type trCtx struct {
 	allowLoopReturn bool
 	strVars         map[string]bool // Go variables of type `string` (range yields runes)
 
-	allowBreak bool                   // while the state of a loop is computed: `break` is not an error
-	loopBreak  func() (string, error) // inside a loop with `break`: the state with the flag set
-	recOf      map[string]*trParam    // loop variables over a tyRecList parameter
+	assignCount map[string]int         // how often a Go variable has been assigned so far (text-matched parameters)
+	allowBreak  bool                   // while the state of a loop is computed: `break` is not an error
+	loopBreak   func() (string, error) // inside a loop with `break`: the state with the flag set
+	recOf       map[string]*trParam    // loop variables over a tyRecList parameter
 }
 
 var leanReserved = map[string]bool{"at": true, "end": true, "from": true, "have": true, "show": true, "then": true, "else": true,
@@ -221,7 +222,7 @@ func (c *trCtx) typeOf(e ast.Expr) trTy {
 		return tyUnknown
 	case *ast.CallExpr:
 		switch exprText(c.fset, x.Fun) {
-		case "int", "int64", "int32", "uint", "uint64", "rune", "len", "float64", "float32", "max", "min":
+		case "int", "int64", "int32", "rune", "len", "float64", "float32", "max", "min":
 			return tyInt
 		case "byte", "uint8":
 			return tyByte
@@ -243,6 +244,9 @@ func (c *trCtx) typeOf(e ast.Expr) trTy {
 func (c *trCtx) expr(e ast.Expr, want trTy) (string, trTy, error) {
 	text := exprText(c.fset, e)
 	if p := c.param(text); p != nil && !p.isFunc {
+		if err := c.paramStillMeansTheSame(p, e); err != nil {
+			return "", 0, err
+		}
 		return p.lean, p.ty, nil
 	}
 	switch x := e.(type) {
@@ -460,9 +464,20 @@ func (c *trCtx) binary(x *ast.BinaryExpr, want trTy) (string, trTy, error) {
 		switch x.Op {
 		case token.ADD, token.SUB, token.MUL:
 			return "(" + a + " " + x.Op.String() + " " + b + ")", tyByte, nil
-		case token.SHR:
-			return "(" + a + " >>> " + b + ")", tyByte, nil
-		case token.SHL:
+		case token.SHR, token.SHL:
+			// Lean's UInt8 shifts take the count mod 8, Go shifts everything out: only literal counts < 8
+			lit, ok := x.Y.(*ast.BasicLit)
+			if n, err := strconv.ParseInt(func() string {
+				if ok {
+					return lit.Value
+				}
+				return "x"
+			}(), 0, 64); !ok || lit.Kind != token.INT || err != nil || n < 0 || n >= 8 {
+				return "", 0, trErr("byte shift %s: the count must be an integer literal < 8", exprText(c.fset, x))
+			}
+			if x.Op == token.SHR {
+				return "(" + a + " >>> " + b + ")", tyByte, nil
+			}
 			return "(" + a + " <<< " + b + ")", tyByte, nil
 		case token.AND:
 			return "(" + a + " &&& " + b + ")", tyByte, nil
@@ -478,7 +493,9 @@ func (c *trCtx) call(x *ast.CallExpr, want trTy) (string, trTy, error) {
 	text := exprText(c.fset, x)
 	args := x.Args
 	switch fn {
-	case "int", "int64", "int32", "uint", "uint64", "rune", "float64", "float32":
+	case "uint", "uint64", "uint32", "uint16", "uintptr":
+		return "", 0, trErr("unsigned arithmetic (%s) is outside the subset: Int does not wrap around", text)
+	case "int", "int64", "int32", "rune", "float64", "float32":
 		// integer conversions are the identity on Int; a float conversion is only legal
 		// around / inside a call of an abstracted (parameter) function, where the parameter
 		// stands for the integer function  n ↦ int(f(float64(n)))
